@@ -159,6 +159,7 @@ class Judge:
         self.accepted = self.rejected = 0
         self.compared = self.deviations = 0
         self.samples = []
+        self.candidates = []      # accepted long traces, corrupted on purpose by selftest()
 
     def run(self, requests, chunk=30000):
         buf = []
@@ -198,14 +199,16 @@ class Judge:
                           "the arena crashed the harness (%s, %s %s) while replaying a history" % (resp.get("st"), crash.get("sig", ""), crash.get("msg", resp.get("panic", ""))),
                           {"profile": profile, "request": rq, "response": resp})
                 continue
-            traces.append(to_trace(rq["id"], resp))
             by_id[rq["id"]] = (rq, resp)
-            for st in resp["steps"]:
+            for n, st in enumerate(resp["steps"]):
                 self.api_used[st["o"] + (":" + st.get("api", "") if st["o"] in ("alloc", "allocz", "grow", "shrink") else "")] += 1
                 self.outcome[st["o"] + (":fail" if st["fail"] else ":ok")] += 1
                 if "panic" in st and st.get("api") not in ("uninit", "uninit_slice"):
                     v.finding("panic:%s" % st["o"], "operation %s panicked: %s" % (st["o"], st["panic"]),
                               {"profile": profile, "request": rq, "step": st})
+                    resp["steps"] = resp["steps"][:n]      # what a panicked call left behind is not judged
+                    break
+            traces.append(to_trace(rq["id"], resp))
         if not traces:
             return
         verdicts, vs = memcheck.validate("mem/ArenaTrace.tla", "mem/ArenaTrace.cfg", traces, "arena_traces",
@@ -219,6 +222,8 @@ class Judge:
             m = rq["m"]
             if ver["verdict"] == "accept":
                 self.accepted += 1
+                if rq["m"]["scale"] == "real" and len(self.candidates) < 40:
+                    self.candidates.append(to_trace(0, resp))
                 if len(self.samples) < 3 and (self.accepted % 9973 == 1):
                     self.samples.append({"build": profile, "request": {k: rq[k] for k in rq if k not in ("m", "id", "modes")},
                                          "recorded_steps": resp["steps"][:6], "verdict": "accept"})
@@ -235,12 +240,90 @@ class Judge:
             st = resp["steps"][ver["k"] - 1]
             if why.startswith("harness-"):
                 raise common.ToolError("a trace was rejected for a harness reason (%s) at step %d: %s\nrequest %s" % (why, ver["k"], json.dumps(st), json.dumps(rq)))
-            key = "%s:%s:%s" % (why, st["o"], align_class(st["a"], page))
+            key = "%s:%s" % (why, st["o"])
+            if st["o"] in ("alloc", "allocz", "grow", "shrink"):
+                key += ":" + align_class(st["a"], page)
             desc = ("the abstract arena specification rejects step %d (%s via %s, size %s, alignment %s) of a recorded history: %s "
                     "[returned base+%s len %s, address mod alignment %s, offset() %s, commit %s; build %s, root %s]"
                     % (ver["k"], st["o"], st.get("api"), st["s"], st["a"], why, st["beg"], st["len"], st["amod"], st["off"], st["commit"],
                        profile, m["root"]))
             v.finding(key, desc, {"profile": profile, "request": rq, "rejected_step": ver["k"], "why": why, "recorded": resp})
+
+
+def corruptions(trace):
+    """Damaged copies of an ACCEPTED trace: (name, expected reason, trace).  One field changed or one
+    recorded step dropped."""
+    out = []
+    steps = trace["steps"]
+
+    def copy():
+        return json.loads(json.dumps(trace))
+
+    ok_allocs = [n for n, st in enumerate(steps) if st["o"] in ("alloc", "allocz") and not st["fail"] and st["len"] > 0]
+    if ok_allocs:
+        n = ok_allocs[len(ok_allocs) // 2]
+        t = copy()
+        t["steps"][n]["amod"] = 1
+        out.append(("address-mod-alignment-changed", "misaligned", t))
+        t = copy()
+        t["steps"][n]["len"] = t["steps"][n]["s"] - 1
+        out.append(("returned-length-shortened", "short-block", t))
+        t = copy()
+        t["steps"][n]["bad"] = [t["steps"][n]["i"]]
+        out.append(("pattern-of-a-live-block-damaged", "live-block-corrupted", t))
+    for n in ok_allocs:
+        prev = [m for m in ok_allocs if m < n and steps[m]["i"] in steps[n - 1]["seen"] and steps[m]["beg"] + steps[m]["len"] <= steps[n]["beg"]] if n else []
+        if prev:
+            t = copy()
+            t["steps"][n]["beg"] = steps[prev[0]]["beg"]
+            out.append(("block-placed-on-a-live-block", "below-offset", t))
+            break
+    failed = [n for n, st in enumerate(steps) if st["o"] in ("alloc", "allocz", "grow") and st["fail"]]
+    if failed:
+        t = copy()
+        t["steps"][failed[0]]["off"] += 8
+        out.append(("failed-request-moved-offset", "failed-request-changed-offset", t))
+    resets = [n for n, st in enumerate(steps) if st["o"] in ("reset", "release") and n > 0 and steps[n - 1]["off"] != st["off"]]
+    if resets:
+        t = copy()
+        t["steps"][resets[0]]["off"] += 1
+        out.append(("reset-offset-changed", "reset-offset-is-not-the-mark", t))
+        t = copy()
+        del t["steps"][resets[0]]
+        out.append(("reset-event-dropped", None, t))
+    grows = [n for n, st in enumerate(steps) if st["o"] == "grow" and not st["fail"]]
+    if grows:
+        t = copy()
+        t["steps"][grows[0]]["kept"] = False
+        out.append(("grow-lost-contents", "contents-lost", t))
+    return out
+
+
+def selftest(candidates, timeout):
+    """Trace validation must have teeth: every damaged copy of an accepted trace is rejected."""
+    damaged = []
+    for c in candidates:
+        for name, want, t in corruptions(c):
+            t["id"] = len(damaged)
+            damaged.append((name, want, t))
+    if not damaged:
+        raise common.ToolError("no accepted long trace to corrupt")
+    verdicts, _ = memcheck.validate("mem/ArenaTrace.tla", "mem/ArenaTrace.cfg", [t for _, _, t in damaged], "arena_selftest", workers=4, timeout=timeout)
+    seen = collections.Counter()
+    for name, want, t in damaged:
+        ver = verdicts[t["id"]]
+        if want is None:
+            # a history with one event dropped may still be a history of SOME correct implementation
+            # (e.g. the next recorded reset goes further down anyway): most, not all, are rejected
+            seen[name + (":rejected" if ver["verdict"] == "reject" else ":still-a-valid-history")] += 1
+            continue
+        if ver["verdict"] != "reject" or ver["why"] != want:
+            raise common.ToolError("damaged trace (%s) was not rejected as expected: %s" % (name, ver))
+        seen[name] += 1
+    for name in {n for n, w, _ in damaged if w is None}:
+        if seen[name + ":rejected"] == 0:
+            raise common.ToolError("no trace with a dropped event (%s) was rejected" % name)
+    return dict(seen)
 
 
 def run(tier):
@@ -275,6 +358,8 @@ def run(tier):
         del hist
     judge.run(random_requests(info, params["random"], params["random_steps"]))
 
+    damaged = selftest(judge.candidates, params["tlc_timeout"])
+
     v.coverage = {
         "states": states,
         "transitions": transitions,
@@ -298,6 +383,7 @@ def run(tier):
         "implementation_constants": {"chunk": info["chunk"], "page": info["page"], "slack_dev": infos["dev"]["slack"], "slack_fast": infos["fast"]["slack"]},
         "refinement_predictions_compared": judge.compared,
         "refinement_deviations_information_only": judge.deviations,
+        "damaged_traces_rejected_by_ArenaTrace": damaged,
         "samples": judge.samples,
     }
     v.assumptions = [
@@ -307,3 +393,23 @@ def run(tier):
         "shrink is exercised on the tail block only (shrinking another block is a debug assertion by design); alloc_uninit(_slice) report failure by panicking",
     ]
     return v.finish()
+
+
+def replay(path):
+    """bin/check C11 quick --replay FILE: re-runs the recorded request on the current tree and has
+    ArenaTrace judge what the arena does now."""
+    d = json.load(open(path))
+    rep = d["replay"]
+    profile = rep.get("profile", "dev")
+    common.build_harness(profile if profile != "dev" else "dev")
+    rq = dict(rep["request"])
+    rq["id"] = 0
+    rq.pop("modes", None)
+    resp = memcheck.replay([rq], "arena", profile=profile, nworkers=1)[0]
+    if resp.get("st") != "ok":
+        print("REPLAY C11: the harness still dies: %s" % json.dumps(resp)[:400])
+        return 1
+    verdicts, _ = memcheck.validate("mem/ArenaTrace.tla", "mem/ArenaTrace.cfg", [to_trace(0, resp)], "arena_replay", workers=1, timeout=300)
+    ver = verdicts[0]
+    print("REPLAY C11: %s %s" % (ver["verdict"], ("at step %d: %s %s" % (ver["k"], ver["why"], json.dumps(resp["steps"][ver["k"] - 1]))) if ver["verdict"] != "accept" else ""))
+    return 0 if ver["verdict"] == "accept" else 1
